@@ -1507,6 +1507,12 @@ class AggregateFunction(Function):
         self._include_filter = True
         self._filters = [*self._filters, *filters]
 
+    def nodes_(self) -> Iterator[NodeT]:
+        # the FILTER criteria are rendered, so their fields and tables belong to the term as well
+        yield from super().nodes_()
+        for criterion in self._filters:
+            yield from criterion.nodes_()
+
     @builder
     def replace_table(  # type:ignore[return]
         self, current_table: "Table" | None, new_table: "Table" | None
